@@ -606,6 +606,25 @@ class Program:
             for k in self._ctor_classes(f, val):
                 for t in tgts:
                     out[t.id].add(k)
+        # plain copies: x = y and a, b = (x, y) hand the classes on
+        copies = []
+        for n in ast.walk(f.node):
+            if isinstance(n, ast.Assign):
+                for t in n.targets:
+                    if isinstance(t, ast.Name) and isinstance(n.value, ast.Name):
+                        copies.append((t.id, n.value.id))
+                    elif isinstance(t, (ast.Tuple, ast.List)) and isinstance(n.value, (ast.Tuple, ast.List)) and len(t.elts) == len(n.value.elts):
+                        for a, b in zip(t.elts, n.value.elts):
+                            if isinstance(a, ast.Name) and isinstance(b, ast.Name):
+                                copies.append((a.id, b.id))
+        for _ in range(4):
+            grew = False
+            for a, b in copies:
+                if out.get(b) and not out[b] <= out[a]:
+                    out[a] |= out[b]
+                    grew = True
+            if not grew:
+                break
         self._calls_cache[key] = out
         return out
 
